@@ -6,6 +6,9 @@ Import ListNotations.
 Definition rid := nat.          (* interned resource id (as the client wrote it) *)
 Definition conn := nat.         (* connection label c0, c1, ... *)
 
+(* a resource id with a query is interned as 10000 + 100*N + K (resource N, query number K); base_of gives N *)
+Definition base_of (r : rid) : rid := if Nat.leb 10000 r then (r - 10000) / 100 else r.
+
 (* values as a client sees them in frames *)
 Inductive cvalue :=
 | CP (n : nat)      (* primitive *)
@@ -43,7 +46,7 @@ Inductive sevent :=
 | SMark         (* a system reset matching the resource reached the gateway; its task has not been processed yet *)
 | SNop.         (* a processed mark *)
 
-Inductive mtyp := MGet | MAccess | MCall | MAuth | MOtherReq.
+Inductive mtyp := MGet | MAccess | MCall | MAuth | MQuery | MOtherReq.
 
 Inductive mout :=
 | OGet (d : rdata)                 (* get result (RErr never used here) *)
@@ -81,6 +84,8 @@ Inductive tev :=
 | TConnToken (c : conn) (tok : nat)                  (* a token event for the connection reached the gateway *)
 | TSysReset (res acc : list rid)                     (* system.reset reached the gateway; the known resources matching its patterns *)
 | TResetTask (r : rid) | TResetStart (r : rid) | TResetNoop (r : rid) | TResetDone (r : rid)   (* reset handling of a cached resource (site marks) *)
+| TQVariants (base : rid) (vs : list rid)            (* a query event of resource base is about to be processed; the loaded query variants *)
+| TQueryAnswered (aliases : list rid)                 (* a query request was answered; the client-side ids that alias the answered variant *)
 | TSched (w : option conn)                           (* a worker was granted a task; Some c for connection c's worker *)
 | TRawOut (c : conn) (leak : bool)                   (* a frame was written to c; leak: it contains some connection id *)
 | THttpReq (h : conn) (get : bool) (r : rid) (meth : list ascii)
